@@ -102,10 +102,16 @@ def _install_once():
             if r is None:
                 return
             f = event.get("log_failure")
-            if f is not None or event.get("isError"):
-                r.logged.append("%s: %s" % (
-                    getattr(getattr(f, "type", None), "__name__", "log"),
-                    str(getattr(f, "value", event.get("log_format")))[:200]))
+            fmt = str(event.get("log_format") or "")
+            # only what the reactor / Deferred machinery reports about errors nobody handled;
+            # the component's own log.error() lines are not observations
+            if "Unhandled error in Deferred" in fmt or "Unhandled Error" in fmt:
+                r._unhandled_next = True      # Twisted logs a header, then the failure itself
+                if f is None:
+                    return
+            if f is not None and getattr(r, "_unhandled_next", False):
+                r._unhandled_next = False
+                r.logged.append("%s: %s" % (getattr(f.type, "__name__", "?"), str(f.value)[:200]))
         try:
             globalLogBeginner.beginLoggingTo([obs], discardBuffer=True, redirectStandardIO=False)
         except Exception:  # noqa  (already begun)
